@@ -10,16 +10,8 @@ import (
 
 	"cosmossdk.io/math"
 	"github.com/chain4energy/c4e-chain/x/cfeminter/types"
-	codectypes "github.com/cosmos/cosmos-sdk/codec/types"
 	sdk "github.com/cosmos/cosmos-sdk/types"
 	authtypes "github.com/cosmos/cosmos-sdk/x/auth/types"
-)
-
-const verifCollector = "distributor_main_account"
-
-const (
-	vT0 = 1600000000 // 2020-09-13, lower bound of every instant (unix seconds)
-	vT1 = 1900000000 // 2030-03-17, upper bound
 )
 
 func verifMinterKeeper() Keeper {
@@ -28,145 +20,6 @@ func verifMinterKeeper() Keeper {
 	W.auth.addPerm(verifCollector, authtypes.Burner)
 	return Keeper{cdc: verifCodec{}, storeKey: &verifStoreKey{types.StoreKey}, bankKeeper: W.bank, stakingKeeper: verifStaking{},
 		collectorName: verifCollector, authority: "gov"}
-}
-
-func verifAny(cfg types.MinterConfigI) *codectypes.Any {
-	a, err := codectypes.NewAnyWithValue(cfg)
-	if err != nil {
-		panic(err)
-	}
-	return a
-}
-
-const (
-	kNo  = 0
-	kLin = 1
-	kExp = 2
-)
-
-// verifKinds enumerates the minter-type tuples validation can accept for n periods (the last one
-// has no end time and therefore cannot be linear).
-func verifKinds(n int, c int) []int {
-	last := []int{kNo, kExp}
-	k := make([]int, n)
-	k[n-1] = last[c%2]
-	c /= 2
-	for i := n - 2; i >= 0; i-- {
-		k[i] = c % 3
-		c /= 3
-	}
-	return k
-}
-
-func verifKindCount(n int) int {
-	r := 2
-	for i := 0; i < n-1; i++ {
-		r *= 3
-	}
-	return r
-}
-
-type verifSched struct {
-	params types.Params
-	kinds  []int
-	starts []time.Time // start of period i
-}
-
-func idx(i int) string { return string(rune('1' + i)) }
-
-// verifSchedule builds an arbitrary schedule of n periods with the given kinds: symbolic start, end times
-// (millisecond aligned), amounts in [0,10^36], multipliers in [0,1], steps in [1s, 10^9 s].
-func verifSchedule(n int, kinds []int) verifSched {
-	start := verif_time_unit("start", 1000000, vT0, vT1)
-	p := types.Params{MintDenom: "uc4e", StartTime: start}
-	s := verifSched{kinds: kinds}
-	prev := start
-	for i := 0; i < n; i++ {
-		m := &types.Minter{SequenceId: uint32(i + 1)}
-		if i < n-1 {
-			e := verif_time_unit("end"+idx(i), 1000000, vT0, vT1)
-			m.EndTime = &e
-		}
-		switch kinds[i] {
-		case kNo:
-			m.Config = verifAny(&types.NoMinting{})
-		case kLin:
-			m.Config = verifAny(&types.LinearMinting{Amount: verif_int_range("A"+idx(i), "0", "1e36")})
-		case kExp:
-			m.Config = verifAny(&types.ExponentialStepMinting{
-				Amount:           verif_int_range("A"+idx(i), "1", "1e36"),
-				AmountMultiplier: verif_dec_range("mult"+idx(i), "0", "1000000000000000000"),
-				StepDuration:     time.Duration(verif_i64_range("step"+idx(i), 1000000000, 1000000000000000000)),
-			})
-		}
-		p.Minters = append(p.Minters, m)
-		s.starts = append(s.starts, prev)
-		if m.EndTime != nil {
-			prev = *m.EndTime
-		}
-	}
-	verif_assume(p.Validate() == nil) // the code's own validity predicate
-	// magnitudes of the statement: periods of at least one second
-	for i := 0; i < n-1; i++ {
-		verif_assume(!p.Minters[i].EndTime.Before(s.starts[i].Add(time.Second)))
-	}
-	s.params = p
-	return s
-}
-
-// bound on exponential steps passed inside period i up to instant t
-func (s verifSched) assumeSteps(i int, t time.Time, K int64) {
-	if s.kinds[i] != kExp {
-		return
-	}
-	cfg := s.params.Minters[i].Config.GetCachedValue().(*types.ExponentialStepMinting)
-	now := t
-	if e := s.params.Minters[i].EndTime; e != nil && t.After(*e) {
-		now = *e
-	}
-	verif_assume(int64(now.Sub(s.starts[i])) <= K*int64(cfg.StepDuration)+int64(cfg.StepDuration)-1)
-}
-
-// ---- independent reference of the documented schedule, in exact integers at 10^-18 resolution
-
-var vE18 = sdk.NewInt(1000000000000000000)
-
-// refCum returns the 10^18-scaled cumulative emission of period i from its start up to t (t clipped to the period).
-func (s verifSched) refCum(i int, t time.Time) math.Int {
-	m := s.params.Minters[i]
-	st := s.starts[i]
-	switch s.kinds[i] {
-	case kLin:
-		cfg := m.Config.GetCachedValue().(*types.LinearMinting)
-		if t.After(*m.EndTime) {
-			return cfg.Amount.Mul(vE18)
-		}
-		if t.Before(st) {
-			return sdk.ZeroInt()
-		}
-		dt := t.UnixMilli() - st.UnixMilli()
-		per := m.EndTime.UnixMilli() - st.UnixMilli()
-		return cfg.Amount.Mul(vE18).MulRaw(dt).QuoRaw(per)
-	case kExp:
-		cfg := m.Config.GetCachedValue().(*types.ExponentialStepMinting)
-		now := t
-		if m.EndTime != nil && t.After(*m.EndTime) {
-			now = *m.EndTime
-		}
-		passed := int64(now.Sub(st))
-		step := int64(cfg.StepDuration)
-		nsteps := passed / step
-		// step amounts a_0 = A, a_{i+1} = a_i * multiplier in the library's 18-decimal arithmetic
-		sum := sdk.ZeroDec()
-		a := sdk.NewDecFromInt(cfg.Amount)
-		for j := int64(0); j < nsteps; j++ {
-			sum = sum.Add(a)
-			a = a.Mul(cfg.AmountMultiplier)
-		}
-		inStep := passed - nsteps*step
-		return verif_dec_rawint(sum).Add(verif_dec_rawint(a).MulRaw(inStep).QuoRaw(step))
-	}
-	return sdk.ZeroInt()
 }
 
 // ---- state
